@@ -69,6 +69,9 @@ pub enum Spelling {
 	/// calls white space but that Rust does NOT skip after a continuation (U+00A0, U+3000, U+2003, ...)
 	/// when the value has one, in front of some other character otherwise
 	ContinuationRaw,
+	/// escaped like Debug, but line feeds written as REAL line breaks inside the (non-raw) literal, and
+	/// `\u{..}` escapes written with `_` separators and leading zeros (all legal Rust)
+	Multiline,
 }
 
 #[derive(Debug, Clone, Hash)]
@@ -105,6 +108,11 @@ fn render(l: &Lit) -> String {
 			let inner = &d[1..d.len() - 1];
 			let cut = inner.char_indices().map(|(i, _)| i).find(|i| *i > 0 && !inner[..*i].ends_with('\\') && !inner[..*i].contains("\\u{") || *i == 0).unwrap_or(0);
 			let cut = if inner[..cut].contains('\\') { 0 } else { cut };
+			// rustc skips literal white space after a continuation: a value character that IS a space must not
+			// be the first thing after the break (it would silently leave the value)
+			if inner[cut..].starts_with(' ') {
+				return d;
+			}
 			format!("\"{}\\\n      {}\"", &inner[..cut], &inner[cut..])
 		}
 		Spelling::ContinuationRaw => {
@@ -124,6 +132,30 @@ fn render(l: &Lit) -> String {
 					s.push_str(&c.escape_default().to_string());
 				} else {
 					s.push(*c);
+				}
+			}
+			s.push('"');
+			s
+		}
+		Spelling::Multiline => {
+			let mut s = String::from("\"");
+			for (j, c) in l.value.chars().enumerate() {
+				match c {
+					'\n' => s.push('\n'),
+					'"' => s.push_str("\\\""),
+					'\\' => s.push_str("\\\\"),
+					'\r' => s.push_str("\\r"),
+					c if (c as u32) >= 0x80 || (c as u32) < 0x20 || c == '\u{7f}' => {
+						let h = format!("{:x}", c as u32);
+						// \u{e_9}, \u{00_e9}, \u{0000e9}: at most 6 hex digits, '_' anywhere after the first digit
+						let spelled = match j % 3 {
+							0 if h.len() >= 2 => format!("{}_{}", &h[..1], &h[1..]),
+							1 if h.len() <= 4 => format!("00_{h}"),
+							_ => format!("{:0>6}", h),
+						};
+						s.push_str(&format!("\\u{{{spelled}}}"));
+					}
+					c => s.push(c),
 				}
 			}
 			s.push('"');
@@ -160,6 +192,9 @@ fn literal(mac: Mac) -> BoxedStrategy<Lit> {
 		"s:/\u{e0001}", "s:/\u{1f600}", "s:?\u{10fffd}", "s:/\u{d7ff}\u{f900}",
 		// Unicode white space that is legal IRI text
 		"http://example.org/a/\u{3000}doc", "s:/a\u{a0}b", "s:/\u{2003}x", "s:/x\u{1680}", "s:?\u{205f}", "s:#\u{202f}\u{2009}", "s:/\u{85}", "s://\u{3000}h/",
+		// a backslash that ends a source line (when the line feed is written as a real line break), followed by
+		// text that would be an escape if the backslash were taken for one - none of these is a valid URI/IRI
+		"http://a/\\\nx41", "a:\\\n  u{e9}", "a:b\\\n'", "a:\\\n\\\nx41", "a:\n", "a:b\nc", "a:\\", "a:\\x41", "a:\\u{41}",
 		// self-similar values: the scheme text again as host, path or second scheme
 		"x://x://", "https://https://example.org/", "a://a:/", "a:a:", "http://http", "s://s/s?s#s", "a:a://a",
 	]
@@ -181,7 +216,7 @@ fn literal(mac: Mac) -> BoxedStrategy<Lit> {
 		// any ucschar / iprivate scalar value somewhere in an otherwise plain IRI
 		1 => (any::<char>(), 0u8..3).prop_map(|(c, slot)| match slot { 0 => format!("s:/a{c}b"), 1 => format!("s://h{c}/"), _ => format!("s:?{c}") }),
 	];
-	(value, select(vec![Spelling::Debug, Spelling::Debug, Spelling::Raw, Spelling::AllEscapes, Spelling::EscapeDefault, Spelling::EscapeDefault, Spelling::Continuation, Spelling::ContinuationRaw])).prop_map(|(value, spelling)| Lit { value, spelling }).boxed()
+	(value, select(vec![Spelling::Debug, Spelling::Debug, Spelling::Raw, Spelling::AllEscapes, Spelling::EscapeDefault, Spelling::EscapeDefault, Spelling::Continuation, Spelling::ContinuationRaw, Spelling::Multiline, Spelling::Multiline])).prop_map(|(value, spelling)| Lit { value, spelling }).boxed()
 }
 
 fn generate(mac: Mac, n: usize, seed: u64, batch: u64) -> Vec<Lit> {
@@ -352,6 +387,7 @@ fn one_batch(mac: Mac, lits: &[Lit], out: &mut Outcome) -> Result<(), String> {
 			Spelling::EscapeDefault => "spelling:escape_default",
 			Spelling::Continuation => "spelling:line-continuation",
 			Spelling::ContinuationRaw => "spelling:line-continuation-raw",
+			Spelling::Multiline => "spelling:multi-line-and-underscored-escapes",
 		}).or_default() += 1;
 		if out.samples.len() < 12 && (h % 7 == 0) {
 			out.samples.push(serde_json::json!({"macro": mac.name(), "literal_source": render(l), "accepted_at_compile_time": !rejected_ct, "accepted_at_run_time": exp_lib}));
@@ -483,7 +519,7 @@ pub fn run(tier: Tier, seed: u64) -> i32 {
 		for f in files {
 			if let Ok(v) = serde_json::from_str::<serde_json::Value>(&std::fs::read_to_string(&f).unwrap_or_default()) {
 				let mac = match v["macro"].as_str() { Some("uri") => Mac::Uri, Some("uri_ref") => Mac::UriRef, Some("iri") => Mac::Iri, Some("iri_ref") => Mac::IriRef, _ => continue };
-				let spelling = match v["spelling"].as_str() { Some("Raw") => Spelling::Raw, Some("AllEscapes") => Spelling::AllEscapes, Some("EscapeDefault") => Spelling::EscapeDefault, Some("Continuation") => Spelling::Continuation, Some("ContinuationRaw") => Spelling::ContinuationRaw, _ => Spelling::Debug };
+				let spelling = match v["spelling"].as_str() { Some("Raw") => Spelling::Raw, Some("AllEscapes") => Spelling::AllEscapes, Some("EscapeDefault") => Spelling::EscapeDefault, Some("Continuation") => Spelling::Continuation, Some("ContinuationRaw") => Spelling::ContinuationRaw, Some("Multiline") => Spelling::Multiline, _ => Spelling::Debug };
 				reg.push((mac, Lit { value: v["value"].as_str().unwrap_or("").to_string(), spelling }));
 			}
 		}
@@ -585,6 +621,7 @@ pub fn replay(path: &Path) -> i32 {
 		Some("EscapeDefault") => Spelling::EscapeDefault,
 		Some("Continuation") => Spelling::Continuation,
 		Some("ContinuationRaw") => Spelling::ContinuationRaw,
+		Some("Multiline") => Spelling::Multiline,
 		_ => Spelling::Debug,
 	};
 	if write_crate().is_err() {
